@@ -116,6 +116,7 @@ func c07Test(r *gen.Rand, i int, clean bool) cc.VerifC07Test {
 	}
 	t.RawReq = r.Chance(1, 10)
 	t.RawResp = r.Chance(1, 10)
+	t.Pre = r.Chance(1, 8)
 	t.Expected = t.RawResp || r.Chance(1, 5)
 	if clean {
 		return t
